@@ -29,8 +29,9 @@ structure Decl where
   kind : DeclKind
   deriving DecidableEq, Repr, Inhabited
 
-/-- `AnyType.__eq__`: `Any` compares equal to every type. -/
-def tyMatch (declared actual : Ty) : Bool := declared == .any || declared == actual
+/-- `AnyType.__eq__`: `Any` compares equal to every object that is a `type`; the pseudo-type of `*` (a `typing.NewType`
+    object) is not one, so no `Any` overload takes a `*` operand. -/
+def tyMatch (declared actual : Ty) : Bool := (declared == .any && actual != .asterisk) || declared == actual
 
 def sigMatch : List Ty → List Ty → Bool
   | [], [] => true
